@@ -66,11 +66,7 @@ Theorem C02_forest_preserved_refuted : exists cfg w e cmd um,
   e_pretend e = false /\ e_fault e = NoFault /\
   C02.forest_ok cfg (wo_fs (v_after (view_of_model cfg w e cmd um))) = false /\
   C02.step_spec cfg w (view_of_model cfg w e cmd um) = false.
-Proof.
-  exists cfg0, w_blocked, env_plain, (CRename na nc), [].
-  split; [vm_compute; reflexivity|]. split; [reflexivity|]. split; [reflexivity|].
-  split; vm_compute; reflexivity.
-Qed.
+Proof. exact forest_preserved_refuted. Qed.
 Print Assumptions C02_forest_preserved_refuted.
 
 (* the frame lemma: what a fresh FindLayers sees depends only on the names directly under the layers
@@ -80,18 +76,14 @@ Theorem C02_frame : forall c f f',
   (forall n, legal_name n = true -> cfg_file c f n = cfg_file c f' n) ->
   (forall n, lm_get (read_layer_files c f) n = lm_get (read_layer_files c f') n)
   /\ C02.forest_ok c f = C02.forest_ok c f'.
-Proof. intros c f f' H1 H2. split; [now apply frame_lookup|now apply frame_forest_ok]. Qed.
+Proof. exact frame_both. Qed.
 Print Assumptions C02_frame.
 
 (* pretend mode leaves the file tree exactly as it is, for every command *)
 Theorem C02_pretend_fs_unchanged : forall cfg w e cmd um,
   cfg_ok cfg = true -> names_distinct cfg w = true -> e_pretend e = true ->
   wo_fs (v_after (view_of_model cfg w e cmd um)) = wo_fs w.
-Proof.
-  intros cfg w e cmd um Hcfg Hnd Hp. rewrite view_model_eq. cbv zeta. cbn [v_after wo_fs].
-  destruct (cfg_ok_spec cfg Hcfg) as (Lc & bsr & wsr & usr & Ec & bpr & gpr & _ & _ & HB & HW & HU & _).
-  exact (pretend_same cfg bsr wsr usr HB HW HU e um (start w) (LayersP.nodup_paths_NoDup _ Hnd) cmd Hp).
-Qed.
+Proof. exact pretend_fs_unchanged_view. Qed.
 Print Assumptions C02_pretend_fs_unchanged.
 
 (* (d) a successful rebase (operations carried out: any environment that is not pretend, in particular
@@ -116,11 +108,7 @@ Theorem C02_rebase_exact_refuted : exists cfg w e a b0,
   e_pretend e = false /\ e_fault e = NoFault /\
   v_res (view_of_model cfg w e (CRebase a b0) []) = ROk /\
   C02.rebase_exact cfg (wo_fs w) (wo_fs (v_after (view_of_model cfg w e (CRebase a b0) []))) a b0 = false.
-Proof.
-  exists cfg0, (MkWO fs_stale ks0), env_plain, nb_, [].
-  split; [vm_compute; reflexivity|]. split; [reflexivity|]. split; [reflexivity|].
-  split; vm_compute; reflexivity.
-Qed.
+Proof. exact rebase_exact_refuted. Qed.
 Print Assumptions C02_rebase_exact_refuted.
 
 (* the round trip the exactness proofs rest on: writing a definition that was itself read from a
